@@ -319,7 +319,13 @@ class DoIPDiscoverer(AsyncScript):
         conn = await self.create_DoIP_conn(
             tgt_hostname, tgt_port, correct_rat, correct_src, 0xAFFE, fast_queue=True
         )
-        reader_task = asyncio.create_task(self.task_read_diagnostic_messages(conn, target_template))
+        responsive_targets: list[str] = []
+        potential_broadcasts: list[int] = []
+        reader_task = asyncio.create_task(
+            self.task_read_diagnostic_messages(
+                conn, target_template, responsive_targets, potential_broadcasts
+            )
+        )
 
         for target_addr in search_space:
             logger.debug(f"[🚧] Attempting connection to {target_addr:#x}")
@@ -375,7 +381,15 @@ class DoIPDiscoverer(AsyncScript):
                 await asyncio.sleep(tcp_connect_delay)
 
                 conn = await self.create_DoIP_conn(
-                    tgt_hostname, tgt_port, correct_rat, correct_src, 0xAFFE
+                    tgt_hostname, tgt_port, correct_rat, correct_src, 0xAFFE, fast_queue=True
+                )
+                # The reader has to follow: replies arrive on the new connection from now on
+                reader_task.cancel()
+                await reader_task
+                reader_task = asyncio.create_task(
+                    self.task_read_diagnostic_messages(
+                        conn, target_template, responsive_targets, potential_broadcasts
+                    )
                 )
                 continue
 
@@ -401,14 +415,30 @@ class DoIPDiscoverer(AsyncScript):
         await conn.close()
 
         logger.notice(
+            f"[💰] For even more profit, try one of the {len(responsive_targets)} targets that actually responded:"
+        )
+        for item in responsive_targets:
+            logger.notice(item)
+
+        # TODO: the discoverer could be extended to search for and validate the broadcast address(es) automatically
+        if len(potential_broadcasts) > 0:
+            logger.notice(
+                "[🕵️] You could also investigate these target addresses that appear to be near broadcasts:"
+            )
+        for target_addr in potential_broadcasts:
+            logger.notice(f"[🤑] B-B-B-B-B-B-BROADCAST around TargetAddress {target_addr:#x}!")
+
+        logger.notice(
             f"[🧭] Check out the content of the log files at {self.artifacts_dir} as well!"
         )
 
     async def task_read_diagnostic_messages(
-        self, conn: DoIPConnection, target_template: str
+        self,
+        conn: DoIPConnection,
+        target_template: str,
+        responsive_targets: list[str],
+        potential_broadcasts: list[int],
     ) -> None:
-        responsive_targets = []
-        potential_broadcasts = []
         try:
             while True:
                 _, payload = await conn.read_diag_request_raw()
@@ -448,21 +478,6 @@ class DoIPDiscoverer(AsyncScript):
             logger.debug("Diagnostic Message reader got cancelled")
         except Exception as e:
             logger.error(f"Diagnostic Message reader died with {e!r}")
-
-        finally:
-            logger.notice(
-                f"[💰] For even more profit, try one of the {len(responsive_targets)} targets that actually responded:"
-            )
-            for item in responsive_targets:
-                logger.notice(item)
-
-            # TODO: the discoverer could be extended to search for and validate the broadcast address(es) automatically
-            if len(potential_broadcasts) > 0:
-                logger.notice(
-                    "[🕵️] You could also investigate these target addresses that appear to be near broadcasts:"
-                )
-            for target_addr in potential_broadcasts:
-                logger.notice(f"[🤑] B-B-B-B-B-B-BROADCAST around TargetAddress {target_addr:#x}!")
 
     async def create_DoIP_conn(
         self,
